@@ -88,6 +88,7 @@ def make_pool(rng):
     g = rng.standard_normal((12, 12))
     P["COV"] = g.dot(g.T) + 12 * np.eye(12)
     P["COV32"] = np.tril(P["COV"]).astype("float32")
+    P["COVM"] = P["COV"] + 1e-3 * rng.standard_normal((12, 12))          # a measured covariance: symmetric only up to noise
     P["COEF"] = rng.standard_normal(6)
     P["JLIST"] = np.array([2, 5, 3])
     P["GSPOS"] = np.array([[0.0, 0.0], [20.0, 10.0]])
@@ -243,6 +244,10 @@ def catalogue(ao):
     add("slopecovariance.create_tomographic_covariance_reconstructor[cond]", SC.create_tomographic_covariance_reconstructor, ["COV"],
         lambda f, a: f(a[0], 2, 0.05))
     add("slopecovariance.mirror_covariance_matrix", SC.mirror_covariance_matrix, ["COV32"], lambda f, a: f(a[0]))
+    add("slopecovariance.create_tomographic_covariance_reconstructor[measured-covariance]", SC.create_tomographic_covariance_reconstructor, ["COVM"],
+        lambda f, a: f(a[0], 2, 0.01))
+    add("slopecovariance.create_tomographic_covariance_reconstructor[measured-covariance,cond0]", SC.create_tomographic_covariance_reconstructor, ["COVM"],
+        lambda f, a: f(a[0], 2))
     add("slopecovariance.structure_function_kolmogorov", SC.structure_function_kolmogorov, ["RAD"], lambda f, a: f(a[0], 0.15))
     add("slopecovariance.structure_function_vk", SC.structure_function_vk, ["RAD"], lambda f, a: f(a[0], 0.15, 25.0))
     add("slopecovariance.wfs_covariance", SC.wfs_covariance, ["POS1", "POS2"], lambda f, a: f(4, 4, a[0], a[1], 0.5, 0.5, 0.15, 25.0))
@@ -457,7 +462,12 @@ class Recorder:
             with warnings.catch_warnings():
                 warnings.simplefilter("ignore")
                 with np.errstate(all="ignore"), contextlib.redirect_stdout(io.StringIO()):
-                    res = e["call"](e["fn"], args)
+                    es0 = np.geterr()
+                    try:
+                        res = e["call"](e["fn"], args)
+                    finally:
+                        if np.geterr() != es0:          # process-wide floating-point error handling is hidden state too
+                            self.findings.append(("hidden-global-numpy-errstate:" + e["name"], dict(entry=e["name"], before=es0, after=np.geterr())))
         except Exception as ex:  # noqa
             res, err = ("raised", type(ex).__name__), repr(ex)[:160]
         after = [arr_token(x) for x in args]
